@@ -143,6 +143,9 @@ def run(ctx):
     if thorough:
         for shape in ("3x1", "1x3", "2x1N3", "1x1"):
             ctx.mc("MC_FaceTopology", f"MC_FaceTopology_{shape}.cfg", workers=8)
+        # the per-face assembly as the code performs it, step by step, against the closed form the trace specs use
+        ctx.mc("MC_FaceAssemble", "MC_FaceAssemble_2x1.cfg")
+    ctx.mc("MC_FaceAssemble", "MC_FaceAssemble_1x2.cfg")
     rng = random.Random(ctx.seed * 32452843 + 5)
     n = 12000 if thorough else 700
     cases = [gen_case(rng, k + 1, nmax=3) for k in range(n)]
